@@ -35,6 +35,18 @@ CHECKS = {
          "seeded simulation + subset enumeration"),
  "C17": ("exploration", "joined value compared with the fold of the log and the stopped mark; at most one Some; None only when failed or taken; join return after stopped(); detach leaves the actor running", "DESIGN.md#6 C17",
          "seeded simulation + value-vs-log comparison"),
+ "C06": ("fault_enumeration", "systematic single-fault enumeration per program: a fault-free run counts the target's callbacks K and task polls J, then one run per (kind, position) - started error, panic at the k-th callback, cancellation instead of the j-th poll, timeout failure, cancellation at a global step - under several schedule seeds (pairs of faults in the thorough tier); containment oracle over target, children, timers, registry and a bystander that calls the target from inside its own handler", "DESIGN.md#6 C06",
+         "systematic fault enumeration (kind x position) per generated program + seeded schedules"),
+ "C08": ("exploration", "concurrent registry histories (invoke/return stamped with the global event number, deaths pinned at the task-done event) checked for linearizability against a sequential registry model by DFS with memoisation; default-instance count vs witness", "DESIGN.md#6 C08",
+         "seeded simulation + linearizability check against a sequential reference model"),
+ "C09": ("exploration", "must / may / must-not delivery windows derived from subscribe / unsubscribe / publish / ping-barrier stamps; at-most-once; one common order per topic extending real-time publish order; nothing left alive at quiescence", "DESIGN.md#6 C09",
+         "seeded simulation + delivery-window and common-order oracle"),
+ "C13": ("exploration", "harness-scripted streams (gates fed by clients, virtual-time delays, never-ending / never-ready) with the select! tie-break drawn from the simulator's PRNG: items exactly once in stream order, nothing abandoned even with a timeout configured, finished-then-stopped once, termination by stop / last drop / stream end", "DESIGN.md#6 C13",
+         "seeded simulation with scripted streams and simulator-owned select! tie-break"),
+ "C16": ("exploration", "generated actor trees (depth <= 3, <= 6 nodes, three registration keys, outside holders): children never end before the parent's task, are released and stop gracefully afterwards (recursively), externally held ones live on; broadcasts exactly once to exactly the children registered under the type", "DESIGN.md#6 C16",
+         "seeded simulation over generated actor trees + fault injection at the parent"),
+ "C18": ("exploration", "the real spawner code of each runtime feature runs over a behavioural stub of that runtime's task handle (tokio/async-std detach on drop, smol cancels on drop); timing-independent programs x 15 spawn entry points x 3 runtimes x 3 schedules; canonical outcome records compared by the driver; every flavour must also satisfy the reference oracles (alive after spawn, C02-C05, C10, C17)", "DESIGN.md#6 C18",
+         "seeded simulation of three runtime builds + cross-runtime outcome-record comparison"),
 }
 
 NA = {
